@@ -75,6 +75,7 @@ def _raised_in_harness(e):
 def exec_case(check, case, timeout):
     """Run one case with a wall-clock guard.  Returns the result dict."""
     old = signal.signal(signal.SIGALRM, _alarm)
+    timeout = max(timeout, case.get("timeout") or 0)      # a case may declare that it needs longer (e.g. C04 needle cases)
     signal.setitimer(signal.ITIMER_REAL, timeout)
     t0 = time.time()
     from . import common as _common
@@ -173,13 +174,39 @@ def _lib_containers():
                 caches.append(v)
             elif isinstance(v, type) and getattr(v, "__module__", "") == mname:
                 for ck, cv in list(vars(v).items()):
+                    if isinstance(cv, (staticmethod, classmethod)):
+                        cv = cv.__func__
+                    if isinstance(cv, types.FunctionType):
+                        _defaults(cv, "%s.%s" % (v.__name__, ck), out)
                     if ck.startswith("__"):
                         continue
                     if isinstance(cv, (dict, list, set)):
                         out.append((v, ck, cv))
                     elif hasattr(cv, "cache_clear") and callable(getattr(cv, "cache_clear")):
                         caches.append(cv)
+            elif isinstance(v, types.FunctionType) and getattr(v, "__module__", "") == mname:
+                _defaults(v, k, out)
     return out, caches
+
+
+class _DefaultsOwner:
+    """Stands for 'the default arguments of function X' in the container list (mutable default arguments are
+    process-wide state, too: a constructor that appends to its `constraints=[]` default changes every later call)."""
+
+    def __init__(self, name):
+        self.__name__ = name
+
+
+_DEFAULT_OWNERS = {}
+
+
+def _defaults(fn, name, out):
+    for i, d in enumerate(fn.__defaults__ or ()):
+        if isinstance(d, (dict, list, set)):
+            key = (id(fn), i)
+            if key not in _DEFAULT_OWNERS:
+                _DEFAULT_OWNERS[key] = _DefaultsOwner("%s.%s" % (fn.__module__, name))
+            out.append((_DEFAULT_OWNERS[key], "default#%d" % i, d))
 
 
 def reset_library_state():
